@@ -39,7 +39,8 @@ def draw(rng, funcs=None, force=None):
             vals = [v if rng.random() > 0.15 else "nan" for v in vals]
         if "arg" in func or func in ("max", "min", "nanmax", "nanmin"):
             vals = [v if rng.random() > 0.05 else rng.choice(["inf", "-inf"]) for v in vals]
-        if func in ("argmax", "argmin"):
+        if "arg" in func:
+            # arg reductions are specified on NaN-free groups (argmax/argmin) / on groups that are not entirely NaN (nanarg*): keep the data NaN-free
             vals = [v if v != "nan" else 0.0 for v in vals]
     elif dtype == "bool":
         vals = [rng.random() < 0.5 for _ in range(n)]
